@@ -419,16 +419,18 @@ Lemma read_entry_ok (file : list N) (v : N) (pool : list (list N)) (e : entry)
   entry_ok (lenN pool) e ->
   lenN file < 4294967296 ->
   lenN pool < 4294967296 ->
+  doff < 2147483648 ->
   skipn (N.to_nat soff) file = summary v e ++ Bs ->
   skipn (N.to_nat doff) file = e_blob e ++ R ->
   read_entry file v pool (e_crc e, doff, lenN (e_blob e), soff)
   = Some (to_pentry v pool e).
 Proof.
-  intros (Hc & Hd & Hl & Hs) Hf Hp Hsum Hblob.
+  intros (Hc & Hd & Hl & Hs) Hf Hp Hdo Hsum Hblob.
   unfold read_entry. cbv beta iota.
   rewrite seek_eq, Hsum.
   rewrite read_summary_ok; try assumption.
   - cbv beta iota. rewrite (lookup_all_ok pool (e_sounds e) Hs).
+    destruct (N.leb_spec 2147483648 doff) as [Hbad|_]; [lia|].
     rewrite seek_eq, Hblob, take_ok. reflexivity.
   - eapply Forall_impl; [|exact Hs]. cbv beta. intros a Ha. lia.
   - pose proof (skipn_lenN_le _ _ _ _ Hsum) as Hle.
@@ -440,19 +442,22 @@ Lemma read_entries_ok (file : list N) (v : N) (pool : list (list N)) (es : list 
     Forall (entry_ok (lenN pool)) es ->
     lenN file < 4294967296 ->
     lenN pool < 4294967296 ->
+    doff + lenN (flat_map e_blob es) < 2147483648 ->
     skipn (N.to_nat soff) file = flat_map (summary v) es ++ Bs ->
     skipn (N.to_nat doff) file = flat_map e_blob es ++ R ->
     mapM (read_entry file v pool) (recs v es soff doff)
     = Some (map (to_pentry v pool) es).
 Proof.
-  induction es as [|e t IH]; intros soff doff Bs R Hok Hf Hp Hsum Hblob;
+  induction es as [|e t IH]; intros soff doff Bs R Hok Hf Hp Hdo Hsum Hblob;
     [reflexivity|].
   cbn [recs mapM map flat_map] in *.
+  rewrite lenN_app in Hdo.
   rewrite <- app_assoc in Hsum, Hblob.
   rewrite (read_entry_ok file v pool e soff doff _ _
-             (Forall_inv Hok) Hf Hp Hsum Hblob).
+             (Forall_inv Hok) Hf Hp ltac:(lia) Hsum Hblob).
   rewrite (IH _ _ Bs R (Forall_inv_tail Hok) Hf Hp).
   - reflexivity.
+  - lia.
   - eapply skipn_advance; [exact Hsum|reflexivity].
   - eapply skipn_advance; [exact Hblob|reflexivity].
 Qed.
@@ -582,6 +587,8 @@ Proof.
   (* pool strings *)
   rewrite (read_strs_ok file pool str_start (S4 ++ sums ++ blobs) Hpool);
     [|unfold str_start; lia|exact K2].
+  destruct (N.leb_spec 2147483648 scene_off) as [Hbad|_]; [lia|].
+  destruct (N.leb_spec 2147483648 (lenN l)) as [Hbad|_]; [lia|].
   assert (negb (lenN l <=? lenN file) = false) as ->
     by (apply negb_false_iff, N.leb_le; lia).
   cbv beta iota.
@@ -598,7 +605,8 @@ Proof.
     - lia. }
   (* entries *)
   rewrite (read_entries_ok file v pool l soff doff blobs [] Hes);
-    [reflexivity|lia|lia|exact K4|exact K5].
+    [reflexivity|lia|lia|fold blobs; unfold doff, soff, scene_off, str_start; lia
+    |exact K4|exact K5].
 Qed.
 
 (* ------------------------------------------------------------------ *)
@@ -816,10 +824,28 @@ Example ex_roundtrip2 :
                      [98; 118; 99; 100; 0; 255; 7] ]).
 Proof. vm_compute. reflexivity. Qed.
 
+(** Byte-exact agreement with the Python writer.  The three byte lists below
+    are the output of [save_scenes_image_sync] (pinned tree) for the same
+    pool/entries, entries built with raw [(data, pool)] payloads that LZMA
+    does not shrink. *)
 Example ex_bytes3 :
-  firstn 28 (img_write 3 ex_pool ex_entries)
-  = [86; 83; 73; 70;  3; 0; 0; 0;  2; 0; 0; 0;  2; 0; 0; 0;  37; 0; 0; 0;
-     28; 0; 0; 0;  34; 0; 0; 0].
+  img_write 3 ex_pool ex_entries
+  = [ 86; 83; 73; 70; 3; 0; 0; 0; 2; 0; 0; 0; 2; 0; 0; 0; 37; 0; 0; 0;
+      28; 0; 0; 0; 34; 0; 0; 0; 97; 46; 119; 97; 118; 0; 98; 98; 0; 17; 0; 0;
+      0; 105; 0; 0; 0; 3; 0; 0; 0; 69; 0; 0; 0; 0; 94; 208; 178; 108; 0; 0;
+      0; 7; 0; 0; 0; 85; 0; 0; 0; 250; 0; 0; 0; 200; 0; 0; 0; 1; 0; 0;
+      0; 0; 0; 0; 0; 220; 5; 0; 0; 176; 4; 0; 0; 2; 0; 0; 0; 1; 0; 0;
+      0; 0; 0; 0; 0; 1; 2; 3; 98; 118; 99; 100; 0; 255; 7 ].
+Proof. vm_compute. reflexivity. Qed.
+
+Example ex_bytes2 :
+  img_write 2 ex_pool ex_entries
+  = [ 86; 83; 73; 70; 2; 0; 0; 0; 2; 0; 0; 0; 2; 0; 0; 0; 37; 0; 0; 0;
+      28; 0; 0; 0; 34; 0; 0; 0; 97; 46; 119; 97; 118; 0; 98; 98; 0; 17; 0; 0;
+      0; 97; 0; 0; 0; 3; 0; 0; 0; 69; 0; 0; 0; 0; 94; 208; 178; 100; 0; 0;
+      0; 7; 0; 0; 0; 81; 0; 0; 0; 250; 0; 0; 0; 1; 0; 0; 0; 0; 0; 0;
+      0; 220; 5; 0; 0; 2; 0; 0; 0; 1; 0; 0; 0; 0; 0; 0; 0; 1; 2; 3;
+      98; 118; 99; 100; 0; 255; 7 ].
 Proof. vm_compute. reflexivity. Qed.
 
 Example ex_bad_magic : img_parse (0 :: tl (img_write 3 ex_pool ex_entries)) = None.
@@ -837,7 +863,23 @@ Definition ex_dup : list entry :=
 Example ex_dup_ok : image_okb 3 ex_pool ex_dup = true /\ crcs_distinctb ex_dup = false.
 Proof. vm_compute. split; reflexivity. Qed.
 
-Example ex_dup_py_differs :
-  img_parse (img_write_py 3 ex_pool ex_dup)
-  <> img_parse (img_write 3 ex_pool ex_dup).
-Proof. vm_compute. discriminate. Qed.
+(** Output of the Python writer for [ex_dup]: note the 12 zero bytes after
+    the first crc (offset 41). *)
+Example ex_dup_bytes_py :
+  img_write_py 3 ex_pool ex_dup
+  = [ 86; 83; 73; 70; 3; 0; 0; 0; 2; 0; 0; 0; 2; 0; 0; 0; 37; 0; 0; 0;
+      28; 0; 0; 0; 34; 0; 0; 0; 97; 46; 119; 97; 118; 0; 98; 98; 0; 5; 0; 0;
+      0; 0; 0; 0; 0; 0; 0; 0; 0; 0; 0; 0; 0; 5; 0; 0; 0; 103; 0; 0;
+      0; 3; 0; 0; 0; 85; 0; 0; 0; 10; 0; 0; 0; 9; 0; 0; 0; 1; 0; 0;
+      0; 0; 0; 0; 0; 20; 0; 0; 0; 19; 0; 0; 0; 1; 0; 0; 0; 1; 0; 0;
+      0; 1; 1; 2; 2; 2 ].
+Proof. vm_compute. reflexivity. Qed.
+
+(** Python: IndexError while parsing that file; the ideal writer is fine. *)
+Example ex_dup_py_parse : img_parse (img_write_py 3 ex_pool ex_dup) = None.
+Proof. vm_compute. reflexivity. Qed.
+
+Example ex_dup_ideal_parse :
+  img_parse (img_write 3 ex_pool ex_dup)
+  = Some (3, ex_pool, map (to_pentry 3 ex_pool) ex_dup).
+Proof. vm_compute. reflexivity. Qed.
